@@ -2007,6 +2007,10 @@ public:
       // REVISIT: do nothing in m_bool_to_bools is not precise but sound.
     } else {
       if (m_unchanged_vars.at(x)) {
+	// the constraints recorded before that mention new_x are about
+	// its old value: they must not be used once new_x is marked as
+	// unchanged again.
+	forget_constraints_with(new_x);
 	m_unchanged_vars += new_x;
       }
     }
